@@ -163,6 +163,12 @@ def instances(tier, seed):
             out.append(dict(name="flags %s in %s" % (api_, k), params=dict(kind="flags", api=api_, scope=k)))
             if api_ != "sizeof" and k != "LazyStruct":
                 out.append(dict(name="flags %s in %s, compiled" % (api_, k), params=dict(kind="flags", api=api_, scope=k, compiled=True)))
+    for inner in ("Array(3, Byte)", "Array(2, Byte)", "RepeatUntil(lambda o, l, c: len(l) == 2, Byte)", "Array(1, Array(3, Byte))"):
+        for outer in ("Array(2, {})", "RepeatUntil(lambda o, l, c: len(l) == 2, {})", "GreedyRange({})"):
+            out.append(dict(name="_index after an inner repeater resolves alike when parsing and when building: %s" % outer.format("Struct('vals'/%s, 'tag'/Bytes(this._index + 1))" % inner),
+                            params=dict(kind="indexafter", outer=outer, inner=inner), expect=["ok"]))
+    for shape in ("flat", "nested", "root"):
+        out.append(dict(name="the object a LazyStruct parsed builds again, forward references included: %s" % shape, params=dict(kind="lazybuild", shape=shape)))
     for shape in ("flat", "nested", "root"):
         out.append(dict(name="members a LazyStruct had to parse are in scope for the members after them: %s" % shape, params=dict(kind="lazyeager", shape=shape)))
     return out
@@ -385,6 +391,34 @@ def harness(ctx, C, p):
         ctx.check("parse of the built bytes succeeds and consumes all of them", rp.ok and st.tell() == 6)
         if "discard" not in p["rep"]:
             ctx.check("parsed elements carry their index", [x.i for x in rp.value] == [0, 1, 2] and ctx.fork(ctx.eq([x.v for x in rp.value], els)))
+        return "ok"
+    if p.get("kind") == "indexafter":
+        # whatever `_index` denotes after an inner repeater has run, it denotes the same while building: build(parse(x)) lays out x
+        d = mk(C, p["outer"].format("Struct('vals'/%s, 'tag'/Bytes(this._index + 1))" % p["inner"]))
+        data = ctx.bytes("data", 12)
+        st = ctx.stream(data)
+        rp = api.outcome(d.parse_stream, st)
+        if not rp.ok:
+            return "reject"
+        used = st.tell()
+        rb = api.outcome(d.build, rp.value)
+        ctx.check("the parsed value builds (got %s)" % ("ok" if rb.ok else type(rb.exc).__name__ + ": " + str(rb.exc)[:60]), rb.ok)
+        ctx.check("build lays the elements out as parse read them", ctx.eq(rb.value, data[:used]))
+        return "ok"
+    if p.get("kind") == "lazybuild":
+        src_ = {"flat": "LazyStruct('count'/Rebuild(VarInt, len_(this.items)), 'items'/Array(this.count, Byte), 'tail'/Byte)",
+                "nested": "LazyStruct('hdr'/Struct('n'/Rebuild(VarInt, len_(this._.items))), 'items'/Array(this.hdr.n, Byte), 'tail'/Byte)",
+                "root": "LazyStruct('hdr'/Struct('in'/Struct('n'/Rebuild(VarInt, len_(this._root.items)))), 'items'/Array(this.hdr['in'].n, Byte), 'tail'/Byte)"}[p["shape"]]
+        d = mk(C, src_)
+        n = ctx.choice("n", [0, 1, 3])
+        from symx.values import mkbytes
+        items, tail = ctx.bytes("items", n), ctx.int("tail", 0, 255)
+        data = mkbytes([n]) + items + mkbytes([tail])
+        ctx.check("building from a plain dict", ctx.eq(d.build(dict(items=list(items), tail=tail)), data))
+        obj = d.parse(data)
+        rb = api.outcome(d.build, obj)
+        ctx.check("the lazily parsed object builds: members parsed later are in scope for the Rebuild before them (got %s)" % ("ok" if rb.ok else type(rb.exc).__name__ + ": " + str(rb.exc)[:60]), rb.ok)
+        ctx.check("and gives the bytes it was parsed from", ctx.eq(rb.value, data))
         return "ok"
     if p.get("kind") == "indexfixed":
         src_ = p["outer"].format("FixedSized(this._index + 2, %s)" % p["inner"])
